@@ -488,7 +488,9 @@ fn shape(t: &str) -> String {
 
 pub struct C05;
 
-const ALPHA: [&str; 40] = [
+const ALPHA: [&str; 46] = [
+    // (characters a careless formatter would escape: backslash, TAB, control and zero-width characters)
+    "\\", "\t", "\u{1}", "\u{feff}", "\u{301}", "\u{a0}",
     "1", "0", "9", "E", "e", "D", "d", ".", "+", "-", "!", "#", "%", "$", "&", "H", "\"", " ", ":", ";", ",", "(", ")",
     "<", ">", "=", "'", "?", "A", "x", "REM", "GO", "TO", "SUB", "PRINT", "IF", "THEN", "ELSE", "é", "*",
 ];
